@@ -19,6 +19,9 @@ summary = []
 for i in ids:
     d = os.path.join(S, i)
     meta = json.load(open(os.path.join(d, 'meta.json')))
+    if meta.get('outside_the_properties'):
+        # kept for the record: a change that breaks none of the listed properties as stated (see meta.json)
+        print(i, 'OUTSIDE THE LISTED PROPERTIES:', meta['outside_the_properties'][:120]); summary.append((i, 'outside')); continue
     checks = claimed if allchecks else meta.get('expect_detected_by') or [meta['property']]
     r = sh(f'git -C /repo apply {d}/patch.diff')
     if r.returncode != 0:
